@@ -305,3 +305,48 @@ func VerifC02OverwriteCreated() {
 	verifAssert(ok2 && verifEqStr(tag, "<!!str !!str>"), "C02/tag-after-overwriting-auto-created-node")
 	verifCover("C02/overwrite/end")
 }
+
+// VerifC02UpdatePerNode: `p op= e` gives EACH match m the value `m op e`, with e evaluated for the node m belongs to —
+// several current nodes (`.a[] | (.x += .y)`) must not see each other's operands. Also `|=` per node.
+func VerifC02UpdatePerNode() {
+	var xs, ys [2]string
+	var xn, yn [2]int64
+	seq := vSeq()
+	for i := 0; i < 2; i++ {
+		xs[i], ys[i] = verifStrN("x"+verifItoa(int64(i)), 1, vDigits()), verifStrN("y"+verifItoa(int64(i)), 1, vDigits())
+		xn[i], _ = parseInt64ForHarness(xs[i])
+		yn[i], _ = parseInt64ForHarness(ys[i])
+		seq.Content = append(seq.Content, vMap(vStr("x"), vInt(xs[i]), vStr("y"), vInt(ys[i])))
+	}
+	doc := vDoc(vMap(vStr("a"), seq))
+	form := verifChoice("form", 6)
+	forms := []string{".a[] | (.x += .y)", ".a[] | (.x -= .y)", ".a[] | (.x *= .y)", ".a[] | (.x |= . + 1)", ".a[] |= (.x += .y)", ".a[] | (.x = .y)"}
+	res, err := vEval(vParse(forms[form]), doc)
+	label := "form=" + forms[form]
+	verifAssert(err == nil && res != nil, "C02/update-error "+label)
+	if err != nil {
+		return
+	}
+	for i := 0; i < 2; i++ {
+		var want int64
+		switch form {
+		case 0, 4:
+			want = xn[i] + yn[i]
+		case 1:
+			want = xn[i] - yn[i]
+		case 2:
+			want = xn[i] * yn[i]
+		case 3:
+			want = xn[i] + 1
+		default:
+			want = yn[i]
+		}
+		el := doc.Content[1].Content[i]
+		got, ok := parseInt64ForHarness(el.Content[1].Value)
+		verifObserve("x"+verifItoa(int64(i)), got)
+		verifAssert(ok && got == want, "C02/update-of-one-node-used-another-node's-operand "+label)
+		gy, oky := parseInt64ForHarness(el.Content[3].Value)
+		verifAssert(oky && gy == yn[i], "C02/update-frame "+label)
+	}
+	verifCover("C02/update-per-node/end")
+}
